@@ -49,12 +49,30 @@ def c05(chk):
         if real:
             stagger = rng.choice([600, 900])
         first, second = ("bg a connect 0 1", "bg b connect 1 0") if rng.random() < 0.5 or not real else ("bg b connect 1 0", "bg a connect 0 1")
+        # in a quarter of the (virtual-time) runs one or both of the dials are background dials: the other node is entered
+        # as a High-affinity known peer and the periodic connectivity check (every 100 ms) dials it
+        bgd = set()
+        if not real and (rng.random() < 0.4 or i < (16 if quick else 100)):
+            bgd = rng.choice([{0}, {1}, {0, 1}, {0, 1}, {0, 1}]) if i >= (16 if quick else 100) else rng.choice([{0}, {1}])
+            if 0 in bgd:
+                first = "known 0 1 high"
+            if 1 in bgd:
+                second = "known 1 0 high"
+            # both nodes were started at the same instant, so their checks tick together: with both entries made within one
+            # period the two background dials start at the same tick; an explicit dial is placed around the next tick
+            # (the first runs of every check sweep the explicit dial over the milliseconds before the tick, so that it
+            # reaches the other node while that node's own background dial is still in flight)
+            stagger = 0 if len(bgd) == 2 else rng.choice([60, 90, 99, 100, 101, 110, 130]) if i >= (16 if quick else 100) else rng.randrange(85, 104)
+            if i < (16 if quick else 100):
+                delay, jitter = rng.choice([100, 1000, 5000]), 0
         cmds = ["seed=%d real=1" % rng.randrange(1 << 30) if real else "seed=%d delay=%d jitter=%d" % (rng.randrange(1 << 30), delay, jitter),
-                "node 0 key=%d" % k0, "node 1 key=%d" % k1, "idlt 0 1",
-                first]
+                "node 0 key=%d%s" % (k0, " ctick=100 ctimeout=2000" if bgd else ""), "node 1 key=%d%s" % (k1, " ctick=100 ctimeout=2000" if bgd else ""), "idlt 0 1"]
+        if bgd:
+            cmds.append("sleep 1")     # the managers start and take their first (immediate) tick; the next ones come at 100 ms, 200 ms, ...
+        cmds += [first]
         if stagger:
             cmds.append("sleep %d" % stagger)
-        cmds += [second, "join a", "join b", "sleep %d" % (1200 if real else 3000),
+        cmds += [second] + (["join a"] if 0 not in bgd else []) + (["join b"] if 1 not in bgd else []) + ["sleep %d" % (1200 if real else 3000),
                  "peers 0", "peers 1", "events 0", "events 1",
                  "rpc 0 1 id=x size=100", "rpc 1 0 id=y size=100",
                  "sleep %d" % (800 if real else 5000), "events 0", "events 1", "peers 0", "peers 1", "ranks", "trace active"]
@@ -94,7 +112,9 @@ def c05(chk):
         for c, x in zip(cmds, res):
             r.setdefault(c, []).append(x)
         lt = r["idlt 0 1"][0] == "1"
-        ja, jb = r["join a"][0], r["join b"][0]
+        ja, jb = r.get("join a", ["ok 1"])[0], r.get("join b", ["ok 0"])[0]
+        if "join a" not in r or "join b" not in r:
+            chk.count("mutual-dial-with-background-dial")
         if not ja.startswith("ok 1") or not jb.startswith("ok 0"):
             chk.monitor_fail("a simultaneous dial failed or returned the wrong identity: %s / %s" % (ja, jb), dict(case=sc, impl=o[:800]))
             continue
@@ -107,6 +127,13 @@ def c05(chk):
             continue
         if r["events 0"][1] != "[]" or r["events 1"][1] != "[]":
             chk.monitor_fail("further connect/disconnect events after the network went quiet: %s %s" % (r["events 0"][1], r["events 1"][1]), dict(case=sc, impl=o[:800]))
+        # "both sides keep the same single connection and drop the other": a third connection between the pair means that
+        # both were dropped (a side may be unlisted for a moment when the other replaced the connection it had registered
+        # first and the winning one has not arrived yet: that is one of the legal orders)
+        adds_total = len(re.findall(r"active,inst=[0-9a-fx]+,add,", res[-1]))
+        if adds_total > 4:
+            chk.monitor_fail("%d connections were made for one mutual dial (the pair dropped both of the two dials and dialed again)" % ((adds_total + 1) // 2), dict(case=sc, impl=o[:800]))
+            continue
         # events so far alternate and end listed
         for k in ("events 0", "events 1"):
             evs = [e for e in r[k][0].strip("[]").split(",") if e]
@@ -122,6 +149,13 @@ def c05(chk):
         o0 = fields(x10)["origin"]
         want1 = "out" if lt else "in"   # id0 < id1: node 1 dialed the survivor
         want0 = "in" if lt else "out"
+        # a background dial is not made when the peer is already connected by then: with a single connection there is no tie to break
+        adds = len(re.findall(r"active,inst=[0-9a-fx]+,add,", res[-1]))
+        if adds < 4:
+            chk.count("second-dial-not-made (peer already connected)")
+            if o0 == o1:
+                chk.monitor_fail("the two ends of the only connection report the same origin (%s)" % o0, dict(case=sc, impl=o[:800]))
+            continue
         if o1 != want1 or o0 != want0:
             chk.monitor_fail("the surviving connection is not the one dialed by the greater identity (origins %s/%s, expected %s/%s)" % (o0, o1, want0, want1), dict(case=sc, impl=o[:800]))
     if outs:
@@ -1001,6 +1035,11 @@ def c02(chk):
                 args += " sleep-ms=%d" % rng.choice([1, 5, 20, 100, 400])
             if rng.random() < 0.2:
                 args += " hdr-size=%d" % rng.choice([1, 100, 5000])
+            if rng.random() < 0.3:
+                # arbitrary header names chosen by the caller, echoed by the handler: mixed case, names equal up to case,
+                # non-ASCII, empty values (header maps travel verbatim)
+                names = rng.sample(["X-Trace", "x-trace", "X-TRACE", "x-\u00e9", "X-a", "x-A", "x-" + "k" * rng.randrange(1, 40)], rng.randrange(1, 4))
+                args += " xh=" + ",".join("%s:%s" % (n.encode().hex(), ("v%d" % q).encode().hex()) for q, n in enumerate(names))
             cmds.append("bg %s rpc %d %d %s" % (rid, a, b, args))
             rpcs.append((rid, a, b, size, rs))
         for rid, *_ in rpcs:
